@@ -346,6 +346,7 @@ func (k Keeper) convertCoinNativeERC20(
 	erc20 := erc20contracts.ERC20MinterBurnerDecimalsContract.ABI
 	contract := pair.GetERC20Contract()
 	balanceToken := k.balanceOf(ctx, erc20, contract, receiver)
+	balanceEscrow := k.balanceOf(ctx, erc20, contract, types.ModuleAddress)
 
 	// Escrow Coins on module account
 	if err := k.bankKeeper.SendCoinsFromAccountToModule(ctx, sender, types.ModuleName, coins); err != nil {
@@ -378,6 +379,21 @@ func (k Keeper) convertCoinNativeERC20(
 			types.ErrBalanceInvariance,
 			"invalid token balance - expected: %v, actual: %v",
 			exp, balanceTokenAfter,
+		)
+	}
+
+	// Check that the escrow was debited exactly the amount: a token that charges
+	// the sender of a transfer a fee would otherwise leave vouchers unbacked
+	balanceEscrowAfter := k.balanceOf(ctx, erc20, contract, types.ModuleAddress)
+	if balanceEscrow == nil || balanceEscrowAfter == nil {
+		return nil, sdkerrors.Wrap(types.ErrBalanceInvariance, "cannot read the escrowed token balance")
+	}
+	expEscrow := big.NewInt(0).Sub(balanceEscrow, tokens)
+	if r := balanceEscrowAfter.Cmp(expEscrow); r != 0 {
+		return nil, sdkerrors.Wrapf(
+			types.ErrBalanceInvariance,
+			"invalid escrowed token balance - expected: %v, actual: %v",
+			expEscrow, balanceEscrowAfter,
 		)
 	}
 
